@@ -1475,6 +1475,11 @@ Pointset_Powerset<PSET>::BHZ03_widening_assign(const Pointset_Powerset& y,
   }
 #endif
 
+  // The multiset certificates count one certificate for each disjunct:
+  // redundant disjuncts must not be there.
+  x.omega_reduce();
+  y.omega_reduce();
+
   // First widening technique: do nothing.
 
   // If `y' is the empty collection, do nothing.
